@@ -223,7 +223,7 @@ def main():
              "kind_free_text": "CBMC 6.11 function and loop contracts (goto-instrument --dfcc) on C extracted mechanically from the headers by must-fire rewrite rules"},
         ],
         "checks": checks,
-        "notes": "No unrepaired known finding remains. Repairs of genuine defects in /repo (\"fix:\" commits) are recorded in /verif/known_findings.jsonl as fixed: lines. DESIGN.md section 8 lists which checks catch which seeded changes.",
+        "notes": "One unrepaired known finding (C09: scale-dependent Ptol test, bounded stand-in). Repairs of genuine defects in /repo (\"fix:\" commits) are recorded in /verif/known_findings.jsonl as fixed: lines. DESIGN.md section 8 lists which checks catch which seeded changes.",
         "not_applicable": [{"property_id": pid, "reason": na.get(pid, "machinery for this property is not finished; no claim is made (DESIGN.md section 6)")}
                            for pid in ids if pid not in CLAIMED],
     }
